@@ -26,7 +26,7 @@ ASSUMPTIONS = [
     "single consumer (the class excludes concurrent consumers)",
     "loop callbacks run FIFO (asyncio contract); producer operations happen between loop runs",
 ]
-BOUNDS = {"quick": {"L": 6}, "thorough": {"L": 9}}
+BOUNDS = {"quick": {"L": 6}, "thorough": {"L": 8}}
 EXHAUSTIVE = {"quick": True, "thorough": True}
 SAMPLE_EVERY = {"quick": 5000, "thorough": 200000}
 
